@@ -71,4 +71,97 @@ theorem loop_reconstructs (r N : Nat) (tol : K) (htol : 0 ≤ tol) (A : Nat → 
         intro l c; simpa using h l c
     · exact h
 
+
+/-- `C[idx] = I` : the coefficients of a chosen row are a unit vector -/
+def IdOnChosen (r : Nat) (s : MVState K) : Prop :=
+  ∀ k, k < r → ∀ k', k' < r → s.C k (s.idx k') = if k = k' then 1 else 0
+
+/-- the chosen rows are pairwise different -/
+def Distinct (r : Nat) (s : MVState K) : Prop :=
+  ∀ k, k < r → ∀ k', k' < r → k ≠ k' → s.idx k ≠ s.idx k'
+
+/-- **the swap keeps `C[idx] = I`** (pivot non-zero) -/
+theorem swap_identity (r : Nat) (s : MVState K) (i j : Nat) (hi : i < r) (hp : s.C i j ≠ 0) (h : IdOnChosen r s) :
+    IdOnChosen r (mvSwap s i j) := by
+  intro k hk k' hk'
+  simp only [mvSwap]
+  by_cases hki : k' = i
+  · subst hki
+    simp only [if_true]
+    by_cases hkk : k = k'
+    · subst hkk; simp only [if_true]; field_simp; ring
+    · simp only [hkk, if_false]; field_simp; ring
+  · simp only [hki, if_false]
+    rw [h k hk k' hk', h i hi k' hk']
+    have : ¬ i = k' := fun e => hki e.symm
+    simp [this]
+
+/-- **the swap keeps the chosen rows distinct**: the entering row `j` has a non-zero coefficient in row `i` of `C`, whereas every
+    chosen row other than the leaving one has coefficient 0 there -/
+theorem swap_distinct (r : Nat) (s : MVState K) (i j : Nat) (hi : i < r) (hp : s.C i j ≠ 0) (h : IdOnChosen r s) (hd : Distinct r s) :
+    Distinct r (mvSwap s i j) := by
+  have hj : ∀ k', k' < r → k' ≠ i → s.idx k' ≠ j := by
+    intro k' hk' hne e
+    have := h i hi k' hk'
+    rw [e] at this
+    have hik : ¬ i = k' := fun e' => hne e'.symm
+    simp only [hik, if_false] at this
+    exact hp this
+  intro k hk k' hk' hne
+  simp only [mvSwap]
+  by_cases h1 : k = i
+  · subst h1
+    have : ¬ k' = k := fun e => hne e.symm
+    simp only [if_true, this, if_false]
+    exact fun e => hj k' hk' this e.symm
+  · by_cases h2 : k' = i
+    · subst h2; simp only [h1, if_false, if_true]; exact hj k hk h1
+    · simp only [h1, h2, if_false]; exact hd k hk k' hk' hne
+
+/-- all three invariants hold along the whole loop -/
+theorem loop_invariants (r N : Nat) (tol : K) (htol : 0 ≤ tol) (A : Nat → Nat → K) :
+    ∀ (fuel : Nat) (s : MVState K) (acc : List (Nat × Nat)), Reconstructs r s A → IdOnChosen r s → Distinct r s →
+      (∀ s' : MVState K, (argmaxAbs s'.C r N).1 < r ∨ r = 0) →
+      Reconstructs r (mvLoop r N tol fuel s acc).1 A ∧ IdOnChosen r (mvLoop r N tol fuel s acc).1 ∧ Distinct r (mvLoop r N tol fuel s acc).1 := by
+  intro fuel
+  induction fuel with
+  | zero => intro s acc h1 h2 h3 _; exact ⟨h1, h2, h3⟩
+  | succ fuel ih =>
+    intro s acc h1 h2 h3 hidx
+    simp only [mvLoop]
+    split
+    · rename_i hgt
+      have hp : s.C (argmaxAbs s.C r N).1 (argmaxAbs s.C r N).2 ≠ 0 := by
+        intro hz
+        rw [hz] at hgt
+        simp only [absR, lt_irrefl, if_false] at hgt
+        exact absurd hgt (not_lt.mpr htol)
+      rcases hidx s with hlt | h0
+      · exact ih _ _ (swap_reconstructs r s A _ _ hlt hp h1) (swap_identity r s _ _ hlt hp h2) (swap_distinct r s _ _ hlt hp h2 h3) hidx
+      · subst h0
+        apply ih _ _ _ _ _ hidx
+        · intro l c; simpa using h1 l c
+        · intro k hk; omega
+        · intro k hk; omega
+    · exact ⟨h1, h2, h3⟩
+
+/-- **stopping condition**: when the loop stops before the iteration cap, the entry it looked at — the one `argmax` returned —
+    has modulus at most `tol` -/
+theorem loop_stops_below_tol (r N : Nat) (tol : K) : ∀ (fuel : Nat) (s : MVState K) (acc : List (Nat × Nat)),
+    (mvLoop r N tol fuel s acc).2.length < acc.length + fuel →
+    ¬ tol < absR ((mvLoop r N tol fuel s acc).1.C (argmaxAbs (mvLoop r N tol fuel s acc).1.C r N).1 (argmaxAbs (mvLoop r N tol fuel s acc).1.C r N).2) := by
+  intro fuel
+  induction fuel with
+  | zero => intro s acc h; simp [mvLoop] at h
+  | succ fuel ih =>
+    intro s acc h
+    simp only [mvLoop] at h ⊢
+    split
+    · rename_i hgt
+      simp only [hgt, if_true, Prod.mk.eta] at h ⊢
+      apply ih
+      simp only [List.length_cons]
+      omega
+    · rename_i hle; exact hle
+
 end TN.C17
